@@ -87,6 +87,63 @@ def run(P: Program, rep: Report):
     probs, npaths = library_argument_flow(P)
     rep.check(not probs, "C09.R6", "parse_string:library-arg", P.func("entrypoint", "parse_string").loc, probs[0] if probs else "")
 
+    rep.rule("C09.R7", "the duplicates survive default parsing: after the default parse stack a duplicate-key block and a duplicate-field block are "
+                       "still failed blocks at their positions (same class, same wrapped block), the duplicate-field entry's key is not live")
+    from .common import call as _call, call_func as _cf, driver_interp as _di, new_obj as _no
+    from ..absint import AList as _AL, AObj as _AO, ASet as _AS, Raised as _R, Unsupported as _U, LoopBound as _LB, explore as _ex
+    ps = P.func("middlewares.parsestack", "default_parse_stack")
+
+    def through_stack(ctx, inplace):
+        it = _di(P, ctx, "middlewares.parsestack")
+        mk = lambda c, *a, **k: _no(it, P, "model", c, *a, **k)
+        F = lambda k, v, l: mk("Field", key=k, value=v, start_line=l)
+        first = mk("Entry", entry_type="a", key="k1", fields=_AL([F("title", "{A}", 1)]), start_line=0, raw="r1")
+        second = mk("Entry", entry_type="a", key="k1", fields=_AL([F("title", "{B}", 3)]), start_line=2, raw="r2")
+        dupf_inner = mk("Entry", entry_type="a", key="k2", fields=_AL([F("year", "1", 5), F("year", "2", 5)]), start_line=4, raw="r3")
+        dupf = mk("DuplicateFieldKeyBlock", duplicate_keys=_AS(["year"]), entry=dupf_inner)
+        later = mk("Entry", entry_type="a", key="k2", fields=_AL([F("title", "{C}", 7)]), start_line=6, raw="r4")
+        # an @string whose name is also a live entry key, defined twice; two entries with an empty key
+        s_first = mk("String", key="k1", value='"S1"', start_line=8, raw="r5")
+        s_dup = mk("String", key="k1", value='"S2"', start_line=9, raw="r6")
+        e_empty = mk("Entry", entry_type="a", key="", fields=_AL([F("title", "{E1}", 11)]), start_line=10, raw="r7")
+        e_empty2 = mk("Entry", entry_type="a", key="", fields=_AL([F("title", "{E2}", 13)]), start_line=12, raw="r8")
+        lib = _no(it, P, "library", "Library")
+        _call(it, lib, "add", _AL([first, second, dupf, later, s_first, s_dup, e_empty, e_empty2]))
+        try:
+            for m in it.iterate(_cf(it, ps, allow_inplace_modification=inplace)):
+                lib = _call(it, m, "transform", lib)
+        except _R as r:
+            return ("raise", r.cls_name())
+        except (_U, _LB) as u:
+            raise AnalysisError(f"C09.R7: analyser cannot follow the default parse stack: {u}")
+        bl = it.iterate(it.get_attr(lib, "blocks"))
+        kinds = [b.cls.name if isinstance(b, _AO) else repr(b) for b in bl]
+        inner_keys = []
+        for b in bl:
+            if isinstance(b, _AO) and b.cls.name in ("DuplicateBlockKeyBlock", "DuplicateFieldKeyBlock"):
+                inner = it.get_attr(b, "ignore_error_block")
+                inner_keys.append((b.cls.name, it.get_attr(inner, "key") if isinstance(inner, _AO) else repr(inner),
+                                   len(it.iterate(it.get_attr(inner, "fields"))) if isinstance(inner, _AO) and inner.cls.name == "Entry" else None))
+        live = sorted(it.get_attr(lib, "entries_dict").items)
+        live_titles = [it.get_attr(it.iterate(it.get_attr(e_, "fields"))[0], "value") for e_ in it.iterate(it.get_attr(lib, "entries"))]
+        # what each duplicate-key block exposes as the first block: its class and its position among the library's blocks
+        prevs = []
+        for b in bl:
+            if isinstance(b, _AO) and b.cls.name == "DuplicateBlockKeyBlock":
+                pb = it.get_attr(b, "previous_block")
+                prevs.append((pb.cls.name if isinstance(pb, _AO) else repr(pb), next((i for i, x in enumerate(bl) if x is pb), None) if inplace else
+                              next((i for i, x in enumerate(bl) if isinstance(pb, _AO) and isinstance(x, _AO) and x.cls is pb.cls and it.get_attr(x, "key") == it.get_attr(pb, "key")), None)))
+        return ("ok", kinds, inner_keys, live, live_titles, prevs)
+    for inplace in (True, False):
+        for ctx, v in _ex(lambda c: through_stack(c, inplace), 50):
+            want = ("ok", ["Entry", "DuplicateBlockKeyBlock", "DuplicateFieldKeyBlock", "Entry", "String", "DuplicateBlockKeyBlock", "Entry", "DuplicateBlockKeyBlock"],
+                    [("DuplicateBlockKeyBlock", "k1", 1), ("DuplicateFieldKeyBlock", "k2", 2), ("DuplicateBlockKeyBlock", "k1", None), ("DuplicateBlockKeyBlock", "", 1)],
+                    ["", "k1", "k2"], ["A", "C", "E1"], [("Entry", 0), ("String", 4), ("Entry", 6)])
+            rep.check(v == want, "C09.R7", f"default-parse-stack-keeps-duplicates:inplace={inplace}", ps.loc,
+                      f"after the default parse stack (inplace={inplace}) over [entry k1, duplicate of k1, entry k2 with a repeated field, entry k2, @string k1, "
+                      f"@string k1 again, two entries with an empty key]: {v!r}; expected {want!r} (kinds, wrapped blocks, live keys, live titles, and for every "
+                      f"duplicate-key block the class and position of the first block it exposes)")
+
     rep.rule("C09.R9", "no unsafe memoisation in the modules this property rests on: a function decorated with lru_cache / cache / "
                       "cached_property neither takes nor returns a mutable object (else later calls see stale or shared results)")
     from . import common as _common
